@@ -28,12 +28,13 @@ def plan(tier):
     return [dict(unit="rebalance", n=1500 if q else 40000, builds=["py", "so"], case_timeout=60),
             dict(unit="sub", n=300 if q else 8000, builds=["py", "so"], case_timeout=60),
             dict(unit="rot", n=300 if q else 8000, builds=["py", "so"], case_timeout=60),
-            dict(unit="inrun", n=200 if q else 5000, builds=["py", "so"], case_timeout=180)]
+            dict(unit="inrun", n=200 if q else 5000, builds=["py", "so"], case_timeout=180),
+            dict(unit="fi", n=250 if q else 6000, builds=["py", "so"], case_timeout=120)]
 
 
 def floors(tier):
     return {"min_decided": 1500, "counters": {"rebalance_calls": 3000, "target_evals": 6000, "closed_evals": 1500, "cash_fraction_calls": 800,
-                                              "sub_spread_evals": 500, "rot_steps": 1500, "exact_evals": 1000, "empty_target_calls": 150, "inrun_calls": 3000, "inrun_target_evals": 5000}, "max_undecided_frac": 0.3}
+                                              "sub_spread_evals": 500, "rot_steps": 1500, "exact_evals": 1000, "empty_target_calls": 150, "inrun_calls": 3000, "inrun_target_evals": 5000, "fi_rebalance_calls": 1500, "fi_target_evals": 3000, "fi_closed_evals": 60}, "max_undecided_frac": 0.3}
 
 
 def unit_cost(sec, kind):
@@ -367,7 +368,91 @@ def case_inrun(cs):
     return _w2case.run_w2(cs, [inrun_oracle], spec=spec, setup=lambda: InRunCtx(spec["comm"], spec["integer"]))
 
 
+class FIRebalance(bt.Algo):
+    """the stock Rebalance inside a fixed-income backtest, with its post-condition: targeted children carry notional w x N (N = the notional
+    set for the date), every other child that had an open position is closed - whatever it is marked at - hedges apart (they carry no
+    notional and are outside the weights workflow by design)"""
+
+    def __init__(self, spec, cnt):
+        super(FIRebalance, self).__init__()
+        self.inner = algos.Rebalance()
+        self.spec = spec
+        self.cnt = cnt
+        self.viol = None
+
+    def __deepcopy__(self, memo):
+        return self
+
+    def __call__(self, target):
+        from bt.core import HedgeSecurity, CouponPayingHedgeSecurity
+        tw = target.temp.get("weights")
+        if tw is None or self.viol is not None or not target.fixed_income:
+            return self.inner(target)
+        items = {k: float(v) for k, v in tw.items()}
+        base = target.temp.get("notional_value", None)
+        if base is None:
+            base = target.notional_value
+        had = {n: c.position != 0 for n, c in target.children.items()}
+        mark = len(ins.EV)
+        out = self.inner(target)
+        kind = self.spec["comm"]
+        costs, ntr = call_costs(ins.EV[mark:], ins.top(target), kind)
+        common.bump(self.cnt, "fi_rebalance_calls")
+        w = {"now": str(target.now), "targets": items, "notional_base": base, "costs": costs, "trades": ntr}
+        for n, wt in items.items():
+            c = target.children.get(n)
+            T = wt * base
+            if c is None:
+                if abs(T) > 1e-9:
+                    self.viol = ("c06_target_missed", dict(w, child=n, what="target child never created"))
+                    return out
+                continue
+            common.bump(self.cnt, "fi_target_evals")
+            if c.fixed_income:
+                tol = 1e-9 * (1 + abs(T) + abs(base))
+            else:
+                px = c.price
+                if not (px == px) or px == 0:
+                    continue
+                tol = (unit_cost(c, kind) if self.spec["integer"] else 0.0) + 2 * costs + 1e-6 * (1 + abs(T))
+            if not abs(c.notional_value - T) <= tol:
+                self.viol = ("c06_target_missed", dict(w, child=n, kind=type(c).__name__, notional=c.notional_value, target_notional=T, tolerance=tol))
+                return out
+        for n, c in target.children.items():
+            if n in items or not had.get(n) or isinstance(c, (HedgeSecurity, CouponPayingHedgeSecurity)):
+                continue
+            if not c.fixed_income and c.price == 0:
+                continue       # a dead stock is left alone by design
+            common.bump(self.cnt, "fi_closed_evals")
+            if c.position != 0:
+                self.viol = ("c06_not_closed", dict(w, child=n, kind=type(c).__name__, position=c.position, price=c.price, notional=c.notional_value))
+                return out
+        return out
+
+
+def case_fi(cs):
+    from .. import w5
+    ins.install()
+    ins.reset()
+    spec = w5.gen(cs)
+    sig = ["w5"] + w5.signature(spec)
+    sample = w5.sample_of(spec)
+    cnt = {}
+    mon = FIRebalance(spec, cnt)
+    run = w5.run_backtest(spec, rebalance=mon)
+    if run.exc is not None:
+        e = run.exc
+        if isinstance(e, ZeroDivisionError) or common.is_guard_exc(e):
+            return common.result(common.OOD, sig=sig, why="zero notional with pnl / sizing guard", sample=sample)
+        return common.result(common.INC, sig=sig, why="bt raised %s: %s" % (type(e).__name__, str(e)[:100]), sample=sample)
+    if mon.viol:
+        return common.result(common.VIOL, sig=sig, nt=True, cnt=cnt, mech=mon.viol[0], witness=dict(mon.viol[1], case_seed=cs, kinds=dict(zip(spec["names"], spec["kinds"]))), sample=sample)
+    return common.result(common.HELD, sig=sig, nt=cnt.get("fi_rebalance_calls", 0) >= 1, cnt=cnt, sample=sample)
+
+
 def run_case(unit, cs, idx, build, params):
+    if unit == "fi":
+        return case_fi(cs)
     if unit == "inrun":
         return case_inrun(cs)
     if unit == "sub":
